@@ -112,7 +112,7 @@ type profile struct {
 var profiles = map[string]profile{
 	"C02": {minTargets: 1, maxTargets: 2, threshold: true, maxSteps: 40,
 		weights: map[string]int{"noti": 24, "reset": 1, "add": 1, "remove": 1, "sync": 1}},
-	"C03": {minTargets: 1, maxTargets: 3, maxSteps: 40,
+	"C03": {minTargets: 1, maxTargets: 3, threshold: true, maxSteps: 40,
 		weights: map[string]int{"noti": 20, "reset": 2, "remove": 1, "add": 1, "sync": 1, "connect": 1, "connecterr": 1, "updmeta": 1}},
 	"C14": {minTargets: 2, maxTargets: 4, maxSteps: 40, small: true,
 		weights: map[string]int{"noti": 16, "reset": 4, "remove": 3, "add": 3, "sync": 1, "connect": 1, "connecterr": 1, "updmeta": 1, "updsize": 1}},
